@@ -6,7 +6,7 @@
 From Coq Require Import Reals ZArith List Bool Lra Lia.
 From PV Require Import Num NumR Model_voigt Model_decomp Proofs_tensors_alg Proofs_tensors_rot
   Proofs_tensors_maps Proofs_tensors_proj Inst_tensors Proofs_decomp Proofs_decomp2 Proofs_decomp3
-  Model_decomp_series Inst_decomp_base Inst_decomp_seg0 Inst_decomp_seg1 Inst_decomp_seg2 Inst_decomp.
+  Proofs_decomp4 Proofs_decomp5 Model_decomp_series Inst_decomp_base Inst_decomp_seg0 Inst_decomp_seg1 Inst_decomp_seg2 Inst_decomp.
 From PV.gen Require Import Gen_tensors Gen_decomp.
 Import ListNotations.
 Open Scope R_scope.
@@ -145,6 +145,45 @@ Proof.
   destruct (row_ok_inv eigh M f r) as (out & E1 & N1); rewrite ?gen_Ed_eq, ?gen_Ev_eq; try assumption.
   rewrite gen_Ed_eq, gen_Ev_eq in E1. rewrite !N1.
   eapply (ec1_ortho_sum_rule M Ed Ev Rq T0 mud muv out); eassumption.
+Qed.
+
+(* C12 for general tensors (Proofs_decomp5.ec1_general_frame_independent) on the generated row: if the row of the
+   tensor in its original frame is initialised, so is the row in the new frame, with the same eight numbers and the
+   co-rotated axis *)
+Lemma gen_general_frame_independent_proof (eigh : oracle) (M0 M Rq : arr NumR) (mud muv : nat -> R) (f0 r0 : arr NumR) :
+  let vm0 := @k_upper_tri_to_symmetric_6 NumR M0 in
+  let vm := @k_upper_tri_to_symmetric_6 NumR M in
+  let Ed0 := snd (eigh (fst (@k_voigt_decompose NumR vm0))) in
+  let Ev0 := snd (eigh (snd (@k_voigt_decompose NumR vm0))) in
+  let Ed := snd (eigh (fst (@k_voigt_decompose NumR vm))) in
+  let Ev := snd (eigh (snd (@k_voigt_decompose NumR vm))) in
+  sym6 vm0 -> sym6 vm -> orth (mat3 Rq) ->
+  eq4b (t4 (@k_voigt_to_elastic_tensor NumR vm)) (rot4 (t4 (@k_voigt_to_elastic_tensor NumR vm0)) (mat3 Rq)) ->
+  distinct3 mud -> distinct3 muv ->
+  orth (mat3 Ed0) -> eigcols (mat3 (fst (@k_voigt_decompose NumR vm0))) (mat3 Ed0) mud ->
+  orth (mat3 Ev0) -> eigcols (mat3 (snd (@k_voigt_decompose NumR vm0))) (mat3 Ev0) muv ->
+  orth (mat3 Ed) -> eigcols (mat3 (fst (@k_voigt_decompose NumR vm))) (mat3 Ed) mud ->
+  orth (mat3 Ev) -> eigcols (mat3 (snd (@k_voigt_decompose NumR vm))) (mat3 Ev) muv ->
+  @k_ec_row NumR eigh M0 = Ok (f0, r0) -> f0 0%nat = 1 ->
+  exists f r, @k_ec_row NumR eigh M = Ok (f, r) /\ f 0%nat = 1 /\
+    (forall n, (n < 8)%nat -> r n = r0 n) /\
+    exists sgn, pm1 sgn /\
+      forall a, (a < 3)%nat -> r (8 + a)%nat = sgn * sum3 (fun b => mat3 Rq a b * r0 (8 + b)%nat).
+Proof.
+  intros vm0 vm Ed0 Ev0 Ed Ev Hs0 Hs HR HT Hdd Hdv HEd0 HEd0e HEv0 HEv0e HEd HEde HEv HEve Hrow0 Hf0.
+  destruct (row_ok_inv eigh M0 f0 r0) as (out0 & E0 & N0); rewrite ?gen_Ed_eq, ?gen_Ev_eq; try assumption.
+  rewrite gen_Ed_eq, gen_Ev_eq in E0.
+  destruct (ec1_general_frame_independent M0 Ed0 Ev0 M Ed Ev Rq mud muv Hs0 Hs HR HT Hdd Hdv
+              HEd0 HEd0e HEv0 HEv0e HEd HEde HEv HEve out0 E0) as (out & E1 & H8 & sgn & Hp & Hax).
+  exists (mk_arr 0 [1]), (mk_arr 0 out).
+  split.
+  { rewrite ec_row_inst. fold (gen_Ed eigh M). fold (gen_Ev eigh M). rewrite gen_Ed_eq, gen_Ev_eq.
+    unfold elasticity_components1_chk. fold vm. fold Ed. fold Ev.
+    rewrite (orth_no_raise _ _ HEd HEv), E1. reflexivity. }
+  split; [reflexivity|]. split.
+  { intros n Hn. rewrite N0. apply H8, Hn. }
+  exists sgn. split; [assumption|]. intros a Ha. etransitivity; [exact (Hax a Ha)|]. f_equal.
+  unfold sum3. rewrite !N0. reflexivity.
 Qed.
 
 (* a batch of two is the two rows side by side; an exception raised for either matrix aborts the call *)
